@@ -1,5 +1,5 @@
 import connspec
-SPEC = connspec.spec('C09', 'check_C09', {40: 'device_set_up_although_ship_id_differs', 41: 'ship_id_not_reported_before_setup', 42: 'ship_id_reported_again', 43: 'device_set_up_twice'}, "Theorem (Coq): on every run, if a SHIP id is stored for the SKI then SetupRemoteDevice only happens after an access-methods reply presenting exactly that id, and a wrong, missing or undecodable id ends in the error state without setup in any continuation; if none is stored the presented id is reported exactly once and before setup; the device is set up at most once - independent of the order of the peer's request and reply. Proof: certified closure (the 'matches' bit of the control event is defined from the stored and presented byte strings in ConnData.abs_ev). Tie: differential runs over stored x presented id (equal, different, empty, missing, null, number) x order x role.")
+SPEC = connspec.spec('C09', 'check_C09', {40: 'device_set_up_although_ship_id_differs', 41: 'ship_id_not_reported_before_setup', 42: 'ship_id_reported_again', 43: 'device_set_up_twice', 44: 'device_set_up_without_the_stored_id_being_presented'}, "Theorem (Coq): on every run, if a SHIP id is stored for the SKI then SetupRemoteDevice only happens after an access-methods reply presenting exactly that id, and a wrong, missing or undecodable id ends in the error state without setup in any continuation; if none is stored the presented id is reported exactly once and before setup; the device is set up at most once - independent of the order of the peer's request and reply. Proof: certified closure (the 'matches' bit of the control event is defined from the stored and presented byte strings in ConnData.abs_ev). Tie: differential runs over stored x presented id (equal, different, empty, missing, null, number) x order x role.")
 
 # hub-level half: the hub-model case stream of C10 (real hub.Hub, see checks/C10.py), projected to this property
 SPEC["streams"] = [dict(imports="From Ship Require Import Base HubModel HubStreams.", case_type="c10_case", check_fn="check_hub_C09",
